@@ -47,7 +47,7 @@ class C05(Prop):
                    "bus nets get plain names and identifiers (not starting with a backslash or '&_'): escaped names "
                    "are scalar by convention and the '&_' case is an open finding of C17/C03",
                    "port base indices are not compared (the statement lists direction and array size)"]
-    runs = {"quick": 2500, "thorough": 60000}
+    runs = {"quick": 10000, "thorough": 250000}
 
     def configure(self, rng, tier):
         r = rng
